@@ -11,18 +11,20 @@ import ast
 
 from lcsa.eff import Effects
 from lcsa.model import Undecided, unparse, is_self_attr
-from props.common import SEQ, SP, SEQ_PATH
+from props.common import CONDITIONAL_CALLEES, SEQ, SP, SEQ_PATH
 
 MOVES = ["swapRes", "swapRandChargeRes", "full_shuffle", "permute_block_swap", "permute_cluster_charges"]
 
 
 def run(ck, prog):
+    from props.common import check_memos
+    ck.attempt(check_memos, ck, prog)
     ck.explanation = (
         "Effect summaries (closed over the call graph) for the five moves and the two API entry points; a use analysis of the "
         "`frozen` parameter; a four-tag local type inference (set / list / ndarray / other) applied to every random.sample "
         "population and to every ==/!= against a list display; a store-pattern reading of swapRes; constructor-call discipline.")
     ck.assumptions += ["rearrangement under every random outcome is NOT decided for permute_block_swap / permute_cluster_charges"]
-    E = Effects(prog)
+    E = Effects(prog, cut=CONDITIONAL_CALLEES)
     ck.attempt(_eff, ck, prog, E)
     ck.attempt(_use_frozen, ck, prog)
     ck.attempt(_types, ck, prog)
@@ -30,6 +32,7 @@ def run(ck, prog):
     ck.attempt(_ctor, ck, prog)
     ck.attempt(_full_shuffle, ck, prog)
     ck.attempt(_swap_rand, ck, prog)
+    ck.attempt(_retry_loops, ck, prog)
     ck.attempt(_api, ck, prog, E)
 
 
@@ -331,3 +334,38 @@ def _api(ck, prog, E):
     h = prog.fn(SP, "SequenceParameters.__init__")
     keeps = any(isinstance(n, ast.Assign) and unparse(n.targets[0]) == "self.SeqObj" and unparse(n.value) == "SeqObj" for n in ast.walk(h.node))
     ck.ob("BIND-api", h.mod.relpath + ":" + h.qual, keeps, expected="SeqObj branch stores the object it is handed", found=keeps, slot="seqobj-branch", where=h.loc())
+
+
+def _retry_loops(ck, prog):
+    """the two moves that retry until delta changes must start every attempt from the receiver's residues: the working copy
+    that receives the swapped blocks is (re)created from self.seq inside the retry loop, before it is written"""
+    for m in ("permute_block_swap", "permute_cluster_charges"):
+        f = prog.fn(SEQ, "Sequence." + m)
+        construct = SEQ_PATH + ":Sequence." + m
+        loops = [s for s in f.body() if isinstance(s, ast.While)]
+        if len(loops) != 1:
+            raise Undecided("%s: expected one retry loop" % m, f.loc())
+        lp = loops[0]
+        written = {}
+        for n in ast.walk(lp):
+            if isinstance(n, ast.Assign):
+                for t in n.targets:
+                    if isinstance(t, ast.Subscript) and isinstance(t.value, ast.Name):
+                        written.setdefault(t.value.id, n.lineno)
+            elif isinstance(n, ast.AugAssign) and isinstance(n.target, ast.Name) and isinstance(n.op, ast.Add) \
+                    and not isinstance(n.value, ast.Constant):
+                written.setdefault(n.target.id, n.lineno)
+        # names that end up in the child object
+        child_args = set()
+        for c in ast.walk(lp):
+            if isinstance(c, ast.Call) and prog.class_of_ctor(f.mod, c) == "Sequence" and c.args:
+                child_args |= {x.id for x in ast.walk(c.args[0]) if isinstance(x, ast.Name)}
+        work = sorted(w for w in written if w in child_args)
+        ck.ob("IDIOM-retry", construct, bool(work), expected="a working copy that is written and then handed to the child object", found=sorted(written), slot="working-copy",
+              where=f.loc(lp))
+        for w in work:
+            inits = [s for s in lp.body if isinstance(s, ast.Assign) and any(isinstance(t, ast.Name) and t.id == w for t in s.targets)]
+            ok = bool(inits) and inits[0].lineno < written[w] and unparse(inits[0].value).replace(" ", "") in ("list(self.seq)", "\"\"", "''", "[]", "list(old_seq_list)")
+            ck.ob("IDIOM-retry", construct, ok, expected="'%s' is re-created from the receiver's sequence at the start of every attempt" % w,
+                  found=[unparse(i) for i in inits] or "initialised outside the retry loop", slot="fresh-per-attempt:" + w, where=f.loc(lp),
+                  note="blocks written by a rejected attempt would otherwise stay in place: residues get duplicated and lost")
